@@ -73,7 +73,7 @@ func init() {
 					}
 				}
 				// the free-run template (two characters over the whole version alphabet) against the
-				// must-have spellings: pairs in both orders and the six orders of a triple
+				// must-have spellings: pairs in both orders and the three positions in a triple (thorough: also two free runs)
 				if fr := freeRunOf(eco); fr != "" {
 					must := mustTemplates(eco)
 					frRanges := thin(rs, 6)
@@ -93,7 +93,11 @@ func init() {
 							continue
 						}
 						m0, m1 := must[0], must[len(must)-1]
-						for _, tr := range [][3]string{{fr, m0, m1}, {m0, fr, m1}, {m0, m1, fr}, {fr, fr, m0}, {m0, fr, fr}, {fr, m1, fr}} {
+						triples := [][3]string{{fr, m0, m1}, {m0, fr, m1}, {m0, m1, fr}}
+						if tier == "thorough" {
+							triples = append(triples, [3]string{fr, fr, m0}, [3]string{m0, fr, fr}, [3]string{fr, m1, fr})
+						}
+						for _, tr := range triples {
 							out = append(out, &Config{ID: fmt.Sprintf("C20/convex/%s/%s/free/%s|%s|%s", eco, r, tr[0], tr[1], tr[2]), Pkg: zzhPkg, Func: "C20Convex", Args: []ArgSpec{ArgStr(eco), ArgTmpl(r), ArgTmpl(tr[0]), ArgTmpl(tr[1]), ArgTmpl(tr[2])}})
 						}
 					}
